@@ -15,7 +15,7 @@ BUDGET = {"quick": (8, 70), "thorough": (16, 2000)}
 K = 3
 RULE = ("Generated OCP (all sampling methods, N 1..4, M 1..3, degree 1..5, radau/legendre, every grid class, fixed/free/parametric horizon) with 1-4 objective terms "
         "built from at_t0, at_tf, sum, sum(include_last), integral(grid='control') and integral over nonlinear integrands in states, controls, algebraic values, time, "
-        "parameters, variables, T and t0, including products of placeholders; opti.f at 3 random decision vectors is compared with the reference model's sum, "
+        "parameters, variables, T, t0 and tf (inside and outside the placeholders), including products of placeholders; opti.f at 3 random decision vectors is compared with the reference model's sum, "
         "ocp.value(ocp.objective) with opti.f, and sol.value(ocp.objective) of a zero-iteration solve with f at the returned point. "
         "Non-trivial = >=2 terms, or an integral with explicit t and M>1, or a non-uniform/localized grid, or degree<=2; distinct = SHA-1 of the case JSON.")
 ASSUMPTIONS = ["ingredient values at nodes / collocation points are read with ocp.sample (C07); parameter values come from the spec"]
@@ -36,6 +36,10 @@ def objective_term(draw, sp):
     inner = draw(gen.free_expr(pool, depth=2))
     if not E.syms_in(inner):
         inner = ["+", inner, draw(st.sampled_from(sig))]
+    if kind != "int" and draw(st.integers(0, 2)) == 0:
+        # horizon quantities inside the sampled placeholder (not only as outer factors); the integrand of a continuous integral joins
+        # the ODE function, whose inputs are x, u, z, p, v and t only: T there is refused loudly by rockit and is outside the domain
+        inner = [draw(st.sampled_from(["*", "+"])), inner, draw(st.sampled_from([["T"], ["t0"], ["tf"]]))]
     term = [kind, inner]
     shape = draw(st.integers(0, 5))
     if shape == 0:
